@@ -1240,12 +1240,8 @@ void Parser::ParserImpl::loadConnection(const ModelPtr &model, const XmlNodePtr 
             mapVariablesFound = true;
 
             if (!variable1Missing && !variable2Missing) {
-                if (variable1Name > variable2Name) {
-                    std::string tmp = variable1Name;
-                    variable1Name = variable2Name;
-                    variable2Name = tmp;
-                }
-
+                // The two names belong to different components, so the pair is ordered: (a, b) and (b, a) are
+                // different mappings. Only the description lists the names in alphabetical order.
                 auto variableNamePair = std::make_pair(variable1Name, variable2Name);
 
                 NamePairList::const_iterator it = std::find_if(usedMapVariables.begin(), usedMapVariables.end(),
@@ -1255,7 +1251,7 @@ void Parser::ParserImpl::loadConnection(const ModelPtr &model, const XmlNodePtr 
                     usedMapVariables.emplace_back(variableNamePair);
                 } else {
                     auto issue = Issue::IssueImpl::create();
-                    issue->mPimpl->setDescription("Connection in model '" + model->name() + "' between '" + variableNamePair.first + "' and '" + variableNamePair.second + "' is not unique.");
+                    issue->mPimpl->setDescription("Connection in model '" + model->name() + "' between '" + std::min(variable1Name, variable2Name) + "' and '" + std::max(variable1Name, variable2Name) + "' is not unique.");
                     issue->mPimpl->mItem->mPimpl->setModel(model);
                     issue->mPimpl->setReferenceRule(Issue::ReferenceRule::MAP_VARIABLES_UNIQUE);
                     addIssue(issue);
